@@ -1,5 +1,6 @@
 import DocsModel.Model.GossipSwarm
 import DocsModel.Props.C04
+import DocsModel.Props.C04Deliver
 import DocsModel.Props.Live
 /-!
 # C04 with the gossip path spelled out
@@ -187,5 +188,55 @@ example :
     let g := run [1] (fun _ => [7]) {} [.startSync 0, .localWrite 0 e, .gossipDeliver 1 0 true true true false, .gossipDeliver 1 0 true false true false]
     g.net.length = 1 ∧ g.sw.st 1 = [e] ∧ g.sw.st 0 = [e] := by
   decide
+
+end GossipSwarm
+
+namespace GossipSwarm
+open Spec Swarm
+
+variable (ns : Bytes) (encE : Entry → Bytes)
+
+theorem absRun_append (g : G) (a b : List GStep) :
+    absRun ns encE g (a ++ b) = absRun ns encE g a ++ absRun ns encE (run ns encE g a) b := by
+  induction a generalizing g with
+  | nil => rfl
+  | cons σ rest ih =>
+    simp only [List.cons_append, absRun, run, List.foldl_cons]
+    rw [ih]
+    simp [run, List.append_assoc]
+
+theorem run_append (g : G) (a b : List GStep) : run ns encE g (a ++ b) = run ns encE (run ns encE g a) b := by
+  simp [run, List.foldl_append]
+
+/-- message `k` of the network reached node `j` and passed its validation, at a point of the history where
+the message had been handed to gossip -/
+def GossipDelivered (hist : List GStep) (j : Nat) (e : Entry) : Prop :=
+  ∃ pre post k i d s b, hist = pre ++ GStep.gossipDeliver j k true d s b :: post ∧
+    (run ns encE {} pre).net[k]? = some (i, e)
+
+/-- **Gossip alone converges where it arrives, with the gossip path spelled out**: a node that every
+accepted local write of the swarm has reached through gossip (each handed to gossip by a live actor that
+synced the document, delivered by the network, accepted by the node's validation) holds exactly the merge
+of all accepted local writes — no session needed -/
+theorem gossip_delivered_everything_converges (hist : List GStep) (j : Nat)
+    (hall : ∀ e ∈ written (run ns encE {} hist).sw, GossipDelivered ns encE hist j e)
+    (hpf : PayloadFunctional (written (run ns encE {} hist).sw)) :
+    ∀ x, x ∈ (run ns encE {} hist).sw.st j ↔ x ∈ join (written (run ns encE {} hist).sw) := by
+  have href := refines_swarm ns encE {} hist
+  rw [href]
+  apply delivered_everything_converges (absRun ns encE {} hist) j _ (by rw [← href]; exact hpf)
+  intro e he
+  rw [← href] at he
+  obtain ⟨pre, post, k, i, d, s, b, hh, hk⟩ := hall e he
+  refine ⟨absRun ns encE {} pre, absRun ns encE (step ns encE (run ns encE {} pre) (.gossipDeliver j k true d s b)) post, ?_, ?_⟩
+  · rw [hh, absRun_append]
+    simp only [absRun, absStep, hk, if_true, Option.toList, List.singleton_append]
+  · rw [← refines_swarm ns encE {} pre]
+    exact delivered_was_written (run ns encE {} pre) (netInv_run ns encE {} (by intro p hp; simp at hp) pre) k i e hk
+
+/-! non-vacuity -/
+example : GossipDelivered [1] (fun _ => [7])
+    [.startSync 0, .localWrite 0 Swarm.exE, .gossipDeliver 1 0 true true true false] 1 Swarm.exE :=
+  ⟨[.startSync 0, .localWrite 0 Swarm.exE], [], 0, 0, true, true, false, rfl, by decide⟩
 
 end GossipSwarm
